@@ -7,6 +7,7 @@
 import AY.Model.Merge
 import AY.Lemmas.Assoc
 import AY.Lemmas.C05Frame
+import AY.Lemmas.ExcBelow
 namespace AY
 
 /-! ### DFS pre-order listing of a tree, with absolute paths -/
@@ -259,6 +260,13 @@ theorem c08_reqNew_self (n : Node) (h : eNew n.flags = false) : reqNew [] [] n =
   | leaf f k => simp only [Node.flags] at h; simp [reqNew, h]
   | comp f k cs => simp only [Node.flags] at h; simp [reqNew, h]
 
+/-- the same with exceptions: a node whose `allow_new` is off and whose path is not excepted -/
+theorem c08_reqNew_self_exc (exc : List Path) (p : Path) (n : Node) (h : eNew n.flags = false)
+    (hx : p ∉ exc) : reqNew exc p n = some p := by
+  cases n with
+  | leaf f k => simp only [Node.flags] at h; simp [reqNew, h, hx]
+  | comp f k cs => simp only [Node.flags] at h; simp [reqNew, h, hx]
+
 theorem c08_allNotNew_flags {n : Node} (h : allNotNew n = true) : eNew n.flags = false := by
   cases n with
   | leaf f k => simpa [allNotNew, Node.flags] using h
@@ -277,14 +285,14 @@ theorem c08_allNotNewList_mem : ∀ (cs : List (Key × Node)), allNotNewList cs 
 
 /-! ### the key loop: a missing key is created only through `_require_all_new` -/
 
-theorem c08_mergeStep_absent (rec : Node → Node → Except Err (Node × Bool)) (sf : Flags) (sk : CompKind)
+theorem c08_mergeStep_absent {exc : List Path} (rec : Node → Node → Except Err (Node × Bool)) (sf : Flags) (sk : CompKind)
     (acc : List (Key × Node)) (k : Key) (value : Node) (h : getChild sk k acc = none) :
-    mergeStep rec sf sk acc (k, value) =
-      match reqNew [] [] value with
+    mergeStep rec sf sk exc acc (k, value) =
+      match reqNew (excBelow k exc) [] value with
       | some p => .error (.notnew (k :: p))
       | none => setChild sf sk k value acc := by
   simp only [mergeStep, h]
-  cases reqNew [] [] value <;> rfl
+  cases reqNew (excBelow k exc) [] value <;> rfl
 
 /-! ### keys after one step of the loop (dict family) -/
 
@@ -302,11 +310,24 @@ theorem c08_akeys_aerase {α : Type} (k : Key) : ∀ (l : List (Key × α)) (x :
 theorem c08_akeys_aset {α : Type} (k : Key) (v : α) (l : List (Key × α)) (h : (alookup k l).isSome = true) :
     akeys (aset k v l) = akeys l := keysOf_aset_of_some k v l h
 
+theorem c08_mem_akeys_aset {α : Type} {k x : Key} {v : α} : ∀ {l : List (Key × α)},
+    x ∈ akeys (aset k v l) → x = k ∨ x ∈ akeys l
+  | [], h => by simp [aset, akeys] at h; exact .inl h
+  | (k', v') :: rest, h => by
+    by_cases hk : k' = k
+    · subst hk; simp [aset, akeys] at h; simp [akeys, h]
+    · simp only [aset, hk, if_false, akeys, List.mem_cons] at h ⊢
+      rcases h with h | h
+      · exact .inr (.inl h)
+      · rcases c08_mem_akeys_aset h with h | h
+        · exact .inl h
+        · exact .inr (.inr h)
+
 /-- one step on an existing key of a mapping never adds a key -/
-theorem c08_mergeStep_present_keys (rec : Node → Node → Except Err (Node × Bool)) {sf : Flags}
+theorem c08_mergeStep_present_keys {exc : List Path} (rec : Node → Node → Except Err (Node × Bool)) {sf : Flags}
     {sk : CompKind} (hsk : sk.isDictFam = true) {acc acc' : List (Key × Node)} {kv : Key × Node}
     {child : Node} (hc : getChild sk kv.1 acc = some child)
-    (h : mergeStep rec sf sk acc kv = .ok acc') : ∀ x, x ∈ akeys acc' → x ∈ akeys acc := by
+    (h : mergeStep rec sf sk exc acc kv = .ok acc') : ∀ x, x ∈ akeys acc' → x ∈ akeys acc := by
   have hl : alookup kv.1 acc = some child := by simpa [getChild, hsk] using hc
   have hsome : (alookup kv.1 acc).isSome = true := by rw [hl]; rfl
   have hset : ∀ v acc', setChild sf sk kv.1 v acc = .ok acc' → akeys acc' = akeys acc := by
@@ -336,16 +357,17 @@ theorem c08_mergeStep_present_keys (rec : Node → Node → Except Err (Node × 
           · exact hrem _ h
           · rw [hset _ _ h]; exact fun _ hx => hx
 
-/-- the loop of a mapping merge whose incoming children all have `allow_new` off never adds a key -/
-theorem c08_mergeLoop_no_new_key (rec : Node → Node → Except Err (Node × Bool)) {sf : Flags}
+/-- the loop of a mapping merge whose incoming children all have `allow_new` off never adds a key,
+    except a key that the pruning by a deleting `other` has just removed (`[x] ∈ exc`) -/
+theorem c08_mergeLoop_no_new_key {exc : List Path} (rec : Node → Node → Except Err (Node × Bool)) {sf : Flags}
     {sk : CompKind} (hsk : sk.isDictFam = true) :
     ∀ (ocs scs scs' : List (Key × Node)), (∀ kv ∈ ocs, eNew kv.2.flags = false) →
-      mergeLoop rec sf sk scs ocs = .ok scs' → ∀ x, x ∈ akeys scs' → x ∈ akeys scs
+      mergeLoop rec sf sk exc scs ocs = .ok scs' → ∀ x, x ∈ akeys scs' → x ∈ akeys scs ∨ [x] ∈ exc
   | [], scs, scs', _, h => by
-    simp only [mergeLoop] at h; injection h with h; subst h; exact fun _ hx => hx
+    simp only [mergeLoop] at h; injection h with h; subst h; exact fun _ hx => .inl hx
   | (k, v) :: rest, scs, scs', hn, h => by
     simp only [mergeLoop] at h
-    cases hs : mergeStep rec sf sk scs (k, v) with
+    cases hs : mergeStep rec sf sk exc scs (k, v) with
     | error e => simp [hs] at h
     | ok acc1 =>
       simp only [hs] at h
@@ -353,26 +375,43 @@ theorem c08_mergeLoop_no_new_key (rec : Node → Node → Except Err (Node × Bo
       have ih := c08_mergeLoop_no_new_key rec hsk rest acc1 scs' (fun kv hkv => hn kv (List.mem_cons_of_mem _ hkv)) h
       cases hg : getChild sk k scs with
       | none =>
-        rw [c08_mergeStep_absent rec sf sk scs k v hg, c08_reqNew_self v hv] at hs
-        cases hs
+        by_cases hkx : [k] ∈ exc
+        · intro x hx
+          rcases ih x hx with hx1 | hx1
+          · rw [c08_mergeStep_absent rec sf sk scs k v hg] at hs
+            split at hs
+            · cases hs
+            · simp only [setChild, hsk, if_true] at hs
+              injection hs with hs
+              rw [← hs] at hx1
+              rcases c08_mem_akeys_aset hx1 with e | hx2
+              · subst e; exact .inr hkx
+              · exact .inl hx2
+          · exact .inr hx1
+        · have hne : ([] : Path) ∉ excBelow k exc := fun hm => hkx ((mem_excBelow k [] exc).1 hm)
+          rw [c08_mergeStep_absent rec sf sk scs k v hg, c08_reqNew_self_exc _ [] v hv hne] at hs
+          cases hs
       | some child =>
         intro x hx
-        exact c08_mergeStep_present_keys rec hsk (kv := (k, v)) hg hs x (ih x hx)
+        rcases ih x hx with hx1 | hx1
+        · exact .inl (c08_mergeStep_present_keys rec hsk (kv := (k, v)) hg hs x hx1)
+        · exact .inr hx1
 
-theorem c08_mergeLoop_missing_key (rec : Node → Node → Except Err (Node × Bool)) (sf : Flags)
+theorem c08_mergeLoop_missing_key {exc : List Path} (rec : Node → Node → Except Err (Node × Bool)) (sf : Flags)
     (sk : CompKind) (acc : List (Key × Node)) (k : Key) (v : Node) (rest : List (Key × Node))
-    (hg : getChild sk k acc = none) (hv : eNew v.flags = false) :
-    mergeLoop rec sf sk acc ((k, v) :: rest) = .error (.notnew [k]) := by
-  simp only [mergeLoop, c08_mergeStep_absent rec sf sk acc k v hg, c08_reqNew_self v hv]
+    (hg : getChild sk k acc = none) (hv : eNew v.flags = false) (hx : [k] ∉ exc) :
+    mergeLoop rec sf sk exc acc ((k, v) :: rest) = .error (.notnew [k]) := by
+  have hne : ([] : Path) ∉ excBelow k exc := fun hm => hx ((mem_excBelow k [] exc).1 hm)
+  simp only [mergeLoop, c08_mergeStep_absent rec sf sk acc k v hg, c08_reqNew_self_exc _ [] v hv hne]
 
-theorem c08_mergeLoop_append (rec : Node → Node → Except Err (Node × Bool)) (sf : Flags) (sk : CompKind) :
-    ∀ (pre acc acc1 post : List (Key × Node)), mergeLoop rec sf sk acc pre = .ok acc1 →
-      mergeLoop rec sf sk acc (pre ++ post) = mergeLoop rec sf sk acc1 post
+theorem c08_mergeLoop_append {exc : List Path} (rec : Node → Node → Except Err (Node × Bool)) (sf : Flags) (sk : CompKind) :
+    ∀ (pre acc acc1 post : List (Key × Node)), mergeLoop rec sf sk exc acc pre = .ok acc1 →
+      mergeLoop rec sf sk exc acc (pre ++ post) = mergeLoop rec sf sk exc acc1 post
   | [], acc, acc1, post, h => by
     simp only [mergeLoop] at h; injection h with h; subst h; rfl
   | kv :: pre, acc, acc1, post, h => by
     simp only [mergeLoop, List.cons_append] at h ⊢
-    cases hs : mergeStep rec sf sk acc kv with
+    cases hs : mergeStep rec sf sk exc acc kv with
     | error e => simp [hs] at h
     | ok acc2 =>
       simp only [hs] at h ⊢
